@@ -60,3 +60,6 @@ pub use self::{
     },
     static_wrapper::Static,
 };
+
+#[cfg(gc_arena_verif)]
+pub use self::context::verif_hooks::{VerifColor, VerifObject, VerifPhase, VerifSnapshot};
